@@ -92,3 +92,127 @@ theorem sigma_zeros_append (d : ℕ) (v : ℝ) (g : ℕ → ℝ) :
     rw [getD_zeros_append_lt d k v hk, zero_mul]
 
 end ALV.C13
+
+namespace ALV.C13
+open ALV ALV.TrigField
+
+/-! ### the executable comb specifications are what the difference-equation solver computes -/
+
+theorem dot_zeros_append (d : ℕ) (v : ℝ) (hy : List ℝ) :
+    C04.dot (List.replicate d (0 : ℝ) ++ [v]) hy = v * hy.getD d 0 := by
+  induction d generalizing hy with
+  | zero =>
+    cases hy with
+    | nil => simp [C04.dot]
+    | cons h t => simp [C04.dot]
+  | succ d ih =>
+    cases hy with
+    | nil => simp [C04.dot, List.replicate_succ]
+    | cons h t => simp [C04.dot, List.replicate_succ, ih]
+
+theorem getD_takeP (n k : ℕ) (l : List ℝ) (hk : k < n) : (C04.takeP (0 : ℝ) n l).getD k 0 = l.getD k 0 := by
+  induction n generalizing k l with
+  | zero => omega
+  | succ n ih =>
+    cases l with
+    | nil =>
+      cases k with
+      | zero => simp [C04.takeP]
+      | succ k =>
+        have := ih k [] (by omega)
+        simp [C04.takeP] at this ⊢
+        exact this
+    | cons x xs =>
+      cases k with
+      | zero => simp [C04.takeP]
+      | succ k =>
+        have := ih k xs (by omega)
+        simp [C04.takeP] at this ⊢
+        exact this
+
+theorem getD_append_zeros (ys : List ℝ) (n k : ℕ) :
+    (ys ++ List.replicate n (0 : ℝ)).getD k 0 = ys.getD k 0 := by
+  induction ys generalizing k with
+  | nil =>
+    simp only [List.nil_append, List.getD_eq_getElem?_getD, List.getElem?_replicate]
+    split <;> simp
+  | cons y ys ih =>
+    cases k with
+    | zero => simp
+    | succ k => simpa using ih k
+
+theorem getD_of_length_le (l : List ℝ) (k : ℕ) (h : l.length ≤ k) : l.getD k 0 = 0 := by
+  rw [List.getD_eq_getElem?_getD, List.getElem?_eq_none h]; rfl
+
+/-- feedback comb, `α ≠ 0`: the unbounded-history solver on `[1] / [1, 0, …, 0, -α]` is the
+recursion `y[n] = x[n] + α·y[n-D]` -/
+theorem fspec_combFb (d : ℕ) (α : ℝ) (ys hx xs : List ℝ) :
+    C04.fspec [1] (List.replicate d 0 ++ [-α]) 1 0 (ys ++ List.replicate (d + 1) 0) hx xs
+      = combFbFrom (d + 1) α ys xs := by
+  induction xs generalizing ys hx with
+  | nil => simp [C04.fspec, combFbFrom]
+  | cons x xs ih =>
+    rw [C04.fspec, combFbFrom]
+    simp only [dot_zeros_append, List.length_singleton, C04.takeP, C04.dot, c0_real]
+    rw [getD_append_zeros]
+    have hval : (1 * x + 0 - -α * ys.getD d 0) / 1
+        = (if d + 1 = 0 ∨ ys.length < d + 1 then x else x + α * ys.getD (d + 1 - 1) 0) := by
+      by_cases h : ys.length < d + 1
+      · rw [getD_of_length_le ys d (by omega)]
+        simp [h]
+      · simp [h]
+    rw [hval]
+    congr 1
+    have := ih ((if d + 1 = 0 ∨ ys.length < d + 1 then x else x + α * ys.getD (d + 1 - 1) 0) :: ys) (x :: hx)
+    rwa [List.cons_append] at this
+
+/-- feedback comb, `α = 0` (identity filter) -/
+theorem fspec_combFb_zero (D : ℕ) (ys hx xs : List ℝ) :
+    C04.fspec [1] [] 1 0 ys hx xs = combFbFrom D (0 : ℝ) ys xs := by
+  induction xs generalizing ys hx with
+  | nil => simp [C04.fspec, combFbFrom]
+  | cons x xs ih =>
+    rw [C04.fspec, combFbFrom]
+    simp only [List.length_singleton, C04.takeP, C04.dot]
+    have hval : (1 * x + 0 - 0) / 1
+        = (if D = 0 ∨ ys.length < D then x else x + 0 * ys.getD (D - 1) c0) := by
+      split <;> simp
+    rw [hval]
+    congr 1
+    exact ih _ _
+
+/-- feedforward comb, `α ≠ 0` -/
+theorem fspec_combFf (d : ℕ) (α : ℝ) (hy hx xs : List ℝ) :
+    C04.fspec (1 :: (List.replicate d 0 ++ [α])) [] 1 0 hy hx xs = combFfFrom (d + 1) α hx xs := by
+  induction xs generalizing hy hx with
+  | nil => simp [C04.fspec, combFfFrom]
+  | cons x xs ih =>
+    rw [C04.fspec, combFfFrom]
+    simp only [List.length_cons, List.length_append, List.length_replicate, List.length_singleton,
+      C04.takeP, C04.dot, dot_zeros_append, c0_real]
+    rw [getD_takeP _ _ _ (by omega)]
+    have hval : (1 * x + α * hx.getD d 0 - 0) / 1
+        = (if hx.length < d + 1 then x else x + α * (x :: hx).getD (d + 1) 0) := by
+      by_cases h : hx.length < d + 1
+      · rw [getD_of_length_le hx d (by omega)]
+        simp [h]
+      · simp [h]
+    rw [hval]
+    congr 1
+    exact ih _ _
+
+theorem fspec_combFf_zero (D : ℕ) (hy hx xs : List ℝ) :
+    C04.fspec [1] [] 1 0 hy hx xs = combFfFrom D (0 : ℝ) hx xs := by
+  induction xs generalizing hy hx with
+  | nil => simp [C04.fspec, combFfFrom]
+  | cons x xs ih =>
+    rw [C04.fspec, combFfFrom]
+    simp only [List.length_singleton, C04.takeP, C04.dot]
+    have hval : (1 * x + 0 - 0) / 1
+        = (if hx.length < D then x else x + 0 * (x :: hx).getD D c0) := by
+      split <;> simp
+    rw [hval]
+    congr 1
+    exact ih _ _
+
+end ALV.C13
